@@ -85,8 +85,24 @@ def make_shell_classes(api):
                 out += ["c%d" % m, "s%d" % m]
             return tuple(out)
 
+    class InstConvShell(Base):
+        """A user subclass whose pure-function convention is a property of the *instance* (``variant``), as a
+        shell read from a file that records its own convention would be."""
+
+        variant = 0
+
+        @property
+        def angmom_components_sph(self):
+            base = list(super().angmom_components_sph)
+            v = self.variant
+            if v == 1:
+                base = base[::-1]
+            elif v == 2:
+                base = [("-" + b) if (b != "c0" and not b.startswith("-")) else b for b in base]
+            return tuple(base)
+
     return {"base": Base, "conv": ConvShell, "pyscf": PyscfLikeShell, "unnorm": UnnormShell,
-            "cartperm": CartPermShell, "sphperm": SphPermShell}
+            "cartperm": CartPermShell, "sphperm": SphPermShell, "instconv": InstConvShell}
 
 
 class Mole:
@@ -392,6 +408,8 @@ def r_new_shell(w, op):
         return cls(a[0], a[1], a[2], a[3], a[4], icenter=a[5])
 
     def post(sh):
+        if op["cls"] == "instconv":
+            sh.variant = op.get("variant", 0)
         w.shells.append(Entry(sh, meta={"cls": op["cls"]}))
 
     b = Bound("W" if keep else "query", "GeneralizedContractionShell", call=call, post=post if keep else None,
@@ -456,7 +474,12 @@ def r_write_file(w, op):
 
 
 def _corrupt_path(w, inv):
-    k = inv["kind"] % 3
+    import io
+
+    k = inv["kind"] % 4
+    if k == 3:  # an open stream instead of a path (rejected by the pinned parsers)
+        text = next(iter(w.fs.files.values()), "H    S\n  1.0  1.0\n")
+        return io.StringIO(text)
     return [w.fs.real("/sim/does-not-exist"), None, 3.5][k]
 
 
